@@ -1,4 +1,4 @@
-HOOK_COMMITS = []
+HOOK_COMMITS = ["5f3d420"]
 NOT_BUILT_REASON = {}
 META = {
     "C19": {
@@ -30,5 +30,17 @@ META = {
         "design_ref": "DESIGN.md §4 C11",
         "level_text": "Snapshots (DataCopy of local and remote features, event payloads, use-case data) are retained and re-encoded after each of up to 5 later updates of all shapes and origins; any difference from the text recorded when the snapshot was taken is a violation. Failed remote writes and persist=false updates must leave DataCopy unchanged. Exploration over generated histories.",
         "level_note": "Trusted: JSON encoding as the observation of a value. The concurrent-read clause is explored by the -race campaign of C17 (readers encoding snapshots against updaters), not by this check.",
+    },
+    "C08": {
+        "technique": "model-based property testing (rapid state machine) against a reference registry, with the complete outbound trace of every peer as the fan-out oracle",
+        "design_ref": "DESIGN.md §4 C08",
+        "level_text": "Histories of subscription management calls and data changes by three peers with overlapping numbering are compared step by step with a reference set: call verdicts, Subscriptions(peer), ids, events, and after every data change the exact multiset of notifications on every connection (source, destination, function, payload = stored data, nobody else). Exploration over generated histories of ~20-40 steps.",
+        "level_note": "Trusted: the grant rule as written in the statement (special accepted), canonical JSON for payload equality. Registry concurrency is not explored here (C17).",
+    },
+    "C09": {
+        "technique": "model-based property testing (rapid state machine) against a reference registry; exhaustive enumeration of request interleavings over a build-tag yield point; free-running stress",
+        "design_ref": "DESIGN.md §4 C09, Appendix A.4",
+        "level_text": "Sequential histories of bind/unbind calls by three peers are compared with a reference registry (verdicts, Bindings(peer), BindingsOnFeature<=1, ids, events). The schedule clause is decided by enumerating every merge order of 2 and 3 concurrent bind requests around the check-then-insert window (controlled through the verif yield point) and by free-running rounds on real goroutines.",
+        "level_note": "Trusted: the sched engine (goroutine parking at yield points, 30 ms quiescence to detect lock waits). Interleavings outside the instrumented window are only reached by stress.",
     },
 }
